@@ -182,6 +182,13 @@ Proof.
   intros HF. induction l as [|x l IH]; [reflexivity|]. rewrite py_for_cons, HF. cbn [existsb].
   destruct (c x); [reflexivity|exact IH].
 Qed.
+Lemma py_for_found_neg {A R} (F : bool -> A -> py_flow bool R) (c : A -> bool) (l : list A) :
+  (forall x, F false x = if c x then Next false else Break true) ->
+  py_for F l false = inl (existsb (fun x => negb (c x)) l).
+Proof.
+  intros HF. induction l as [|x l IH]; [reflexivity|]. rewrite py_for_cons, HF. cbn [existsb].
+  destruct (c x); [exact IH|reflexivity].
+Qed.
 (* ... the same without the break *)
 Lemma py_for_found_nobreak {A R} (F : bool -> A -> py_flow bool R) (c : A -> bool) (l : list A) :
   (forall b x, F b x = Next (if c x then true else b)) ->
@@ -190,6 +197,22 @@ Proof.
   intros HF. induction l as [|x l IH]; intros b; [rewrite orb_false_r; reflexivity|]. rewrite py_for_cons, HF, IH. cbn [existsb].
   destruct (c x), b; reflexivity.
 Qed.
+Lemma py_for_found_nobreak_neg {A R} (F : bool -> A -> py_flow bool R) (c : A -> bool) (l : list A) :
+  (forall b x, F b x = Next (if c x then b else true)) ->
+  forall b, py_for F l b = inl (b || existsb (fun x => negb (c x)) l).
+Proof.
+  intros HF. induction l as [|x l IH]; intros b; [rewrite orb_false_r; reflexivity|]. rewrite py_for_cons, HF, IH. cbn [existsb].
+  destruct (c x), b; reflexivity.
+Qed.
+(* flag loops (`found = False; for x in l: if c(x): found = True [; break]`) -> existsb *)
+Ltac py_flag_loops :=
+  repeat first
+    [ erewrite py_for_found; [|intros ?; reflexivity]
+    | erewrite py_for_found_neg; [|intros ?; reflexivity]
+    | erewrite py_for_found_nobreak; [|intros ? ?; reflexivity]
+    | erewrite py_for_found_nobreak_neg; [|intros ? ?; reflexivity] ];
+  cbn [orb]; cbv beta iota.
+
 Lemma py_alloc_eqb_sym a b : py_alloc_eqb a b = py_alloc_eqb b a.
 Proof.
   revert b. induction a as [|x a IH]; intros [|y b]; try reflexivity. cbn. rewrite IH, Nat.eqb_sym. reflexivity.
@@ -203,6 +226,9 @@ Proof. induction l as [|x l IH]; [reflexivity|]. cbn. rewrite negb_orb, IH. refl
 
 Lemma forallb_as_existsb {A} (f : A -> bool) l : forallb f l = negb (existsb (fun x => negb (f x)) l).
 Proof. rewrite negb_existsb. induction l as [|x l IH]; [reflexivity|]. cbn. rewrite negb_involutive, IH. reflexivity. Qed.
+
+Lemma existsb_negb_negb {A} (f : A -> bool) l : existsb (fun x => negb (negb (f x))) l = existsb f l.
+Proof. induction l as [|x l IH]; [reflexivity|]. cbn. rewrite negb_involutive, IH. reflexivity. Qed.
 
 Lemma py_any_map {A} (f : A -> bool) l : py_any (map f l) = existsb f l.
 Proof. unfold py_any. induction l as [|x l IH]; [reflexivity|]. cbn. rewrite IH. reflexivity. Qed.
